@@ -51,7 +51,7 @@ def run(tier, seed):
     def shard(k):
         trace = os.path.join(wd, f"trace{k}.ndjson")
         harness(["ports", "--out", trace, "--seed", seed * 1000 + k, "--sweeps", 2, "--first", k * 2,
-                 "--floating", 200 if quick else 2000])
+                 "--floating", 200 if quick else 2000, "--ulawrites", 150 if quick else 1500])
         return (trace,) + validate(trace, f"t{k}")
 
     res = parallel([mc] + [lambda k=k: shard(k) for k in range(shards)])
@@ -94,7 +94,7 @@ def run(tier, seed):
     chk.cov["port_addresses_per_sweep"] = 65536
     chk.cov["rule"] = (f"{shards} shards x 2 configurations (of the 16 machine x Kempston x mouse x extender; EAR low/high): IN from all 65536 ports "
                        "with distinguishable device states and the beam outside the picture, OUT to all 65536 ports with probes of border, paging "
-                       f"latch/bank marker, AY select/data read-back and extender log (the extender claims 0xCCCC, xx3B, 0x1xFD and xxFC: the last two overlap built-in devices); {200 if quick else 2000} floating-bus reads per shard and machine "
+                       f"latch/bank marker, AY select/data read-back and extender log (the extender claims 0xCCCC, xx3B, 0x1xFD and xxFC: the last two overlap built-in devices); {150 if quick else 1500} writes of arbitrary values to arbitrary ports per shard and machine with the sound on, border colour and settled speaker/MIC level heard after each (every ordered pair of speaker/MIC settings); {200 if quick else 2000} floating-bus reads per shard and machine "
                        "(48K, 128K, 128K shadow screen) at T around line starts/ends, inside the picture and uniform")
     chk.assumptions += ["ports selecting several devices are not judged (as the statement says)",
                         "floating bus: any byte fetched in an 8-T group overlapping the IN instruction +-8 T is allowed; exactly 0xFF when none overlaps"]
